@@ -4,7 +4,7 @@
 tier=$1; shift
 out=/tmp/soak-ev-$$; mkdir -p $out
 for seed in "$@"; do
-  for p in C01 C02 C03 C04 C05 C06 C07 C08 C09 C10 C11 C12 C13 C14 C15 C16 C17 C18 C19 C20; do
+  for p in ${PROPS:-C01 C02 C03 C04 C05 C06 C07 C08 C09 C10 C11 C12 C13 C14 C15 C16 C17 C18 C19 C20}; do
     t0=$(date +%s)
     VERIF_SEED=$seed VERIF_EVIDENCE_DIR=$out VERIF_REPLAY_DIR=$out/replays python3 /verif/check.py --property $p --tier $tier > $out/$p-$seed.log 2>&1
     rc=$?
